@@ -36,7 +36,7 @@ PROPERTIES = {
         "min_obligations": 400,
     },
     "C09": {
-        "contracts": [transform.Cumulative, transform.ArgExtremum, transform.Diff],
+        "contracts": [transform.Cumulative, transform.ArgExtremum, transform.Diff, transform.DiffNative],
         "level": "proof",
         "min_obligations": 600,
     },
